@@ -50,6 +50,8 @@ Cfg(maxtx, maxpkt, nd, pa, pad, pg) ==
 
 Cfgs == IF Scope = "tiny"
         THEN {Cfg(1, 1400, TRUE, FALSE, TRUE, FALSE), Cfg(2, 30, FALSE, TRUE, FALSE, TRUE)}
+        ELSE IF Scope = "probe"
+        THEN {Cfg(1, 1400, TRUE, FALSE, FALSE, FALSE)} \cup (IF "MC_ONECFG" \in DOMAIN IOEnv THEN {} ELSE {Cfg(2, 1400, FALSE, FALSE, FALSE, FALSE)})
         ELSE {Cfg(tx, p, nd, pa, pad, pg) : tx \in {1, 2}, p \in {24, 30, 1400}, nd \in BOOLEAN,
                                             pa \in BOOLEAN, pad \in BOOLEAN, pg \in BOOLEAN}
 
@@ -57,8 +59,8 @@ MonInit == [C07 |-> C07Init, C08 |-> C08Init, C09 |-> C09Init, C10 |-> C10Init, 
             C13 |-> C13Init, C15 |-> C15Init, C16 |-> C16Init, C19 |-> C19Init]
 
 Init ==
-    /\ \E g \in Pick(IF Scope = "tiny" THEN {0} ELSE {0, 1}), pol \in Pick(Pols), cfg \in Pick(Cfgs),
-          pred \in Pick(IF Scope = "tiny" THEN {"all"} ELSE {"all", "even"}) :
+    /\ \E g \in Pick(IF Scope \in {"tiny", "probe"} THEN {0} ELSE {0, 1}), pol \in Pick(Pols), cfg \in Pick(Cfgs),
+          pred \in Pick(IF Scope \in {"tiny", "probe"} THEN {"all"} ELSE {"all", "even"}) :
           st = NodeInit(<<OwnAddr, g>>, pol, "fixed", "samekey", pred, cfg)
     /\ pend = <<>>
     /\ mon = MonInit
@@ -173,7 +175,7 @@ MonStep(m, o) ==
                [] p = "C19" -> C19Step(m[p], o)]
 
 Do(call) ==
-    \E pref \in Pick(PrefUniverse), hv \in Pick({0, 1, 2}) :
+    \E pref \in Pick(IF Scope = "probe" /\ WantScripts THEN {Ranked(AllIds, <<>>)} ELSE PrefUniverse), hv \in Pick(IF Scope = "probe" THEN {0} ELSE {0, 1, 2}) :
       LET tape == [EmptyTape EXCEPT !.auto = TRUE, !.pref = pref, !.hv = hv]
           r == Step(st, call[1], call[2], tape, <<>>, TRUE)
           out == ObsOut(st.codec, r.out)
@@ -203,10 +205,36 @@ Do(call) ==
                                                      pol |-> st.pol, pred |-> st.hpred, cfg |-> st.cfg]])
                        ELSE script
 
+(***************************************************************************)
+(* Scope "probe": EVERY interleaving of one probe round and what follows   *)
+(* it.  The instance learns two members, its probe timer fires, and from   *)
+(* then on the environment may, at every step, deliver any pending timer   *)
+(* (indirect-probe, next probe, suspicion timeout, forget) or hand over    *)
+(* any datagram that bears on the round: acks and forwarded acks with the  *)
+(* current / a stale probe number from either peer and for either origin,  *)
+(* a ping, gossip that suspects / refutes / buries the probed member or    *)
+(* suspects the instance itself.  Exhaustive (Sim = FALSE); with           *)
+(* MC_SCRIPTS=1 every behaviour is printed and replayed on the real code.  *)
+(***************************************************************************)
+ProbeMsgs(n) == {Msg("Ack", n, NoId), Msg("Ack", (n + ProbeMod - 1) % ProbeMod, NoId), Msg("Ping", n, NoId),
+                 Msg("ForwardedAck", n, <<2, 0>>), Msg("ForwardedAck", n, <<3, 0>>),
+                 Msg("ForwardedAck", (n + ProbeMod - 1) % ProbeMod, <<2, 0>>)}
+ProbeUpds == {Mem(<<2, 0>>, 0, "S"), Mem(<<2, 0>>, 1, "A"), Mem(<<2, 0>>, 0, "D"), Mem(st.id, st.inc, "S")}
+
+ProbeNext ==
+    CASE steps = 0 -> Do(<<"apply_many", [updates |-> <<Mem(<<2, 0>>, 0, "A"), Mem(<<3, 0>>, 0, "A")>>, bcast |-> FALSE], 0>>)
+      [] steps = 1 -> \E i \in Deliverable : pend[i].t.k = "Probe" /\ Do(<<"timer", pend[i].t, i>>)
+      [] OTHER -> \/ \E i \in Deliverable : Do(<<"timer", pend[i].t, i>>)
+                  \/ \E s \in {<<2, 0>>, <<3, 0>>}, m \in ProbeMsgs(st.probe.n) :
+                        Do(<<"data", Parsed(Hdr(s, 0, st.id, m), <<>>, <<>>), 0>>)
+                  \/ \E u \in ProbeUpds :
+                        Do(<<"data", Parsed(Hdr(<<3, 0>>, 0, st.id, Msg("Gossip", 0, NoId)), <<u>>, <<>>), 0>>)
+
 Next ==
     /\ steps < MaxSteps
     /\ (lastObs # <<>> => lastObs.res # "Panic")
-    /\ \E class \in Pick(Classes) :
+    /\ IF Scope = "probe" THEN ProbeNext ELSE
+       \E class \in Pick(Classes) :
          CASE class = "timer" -> \E i \in Pick(Deliverable) : Do(<<"timer", pend[i].t, i>>)
            [] class = "forged" -> \E t \in Pick(TimersForged) : Do(<<"timer", t, 0>>)
            [] class = "api" -> ApiCall(Do)
